@@ -254,6 +254,7 @@ pub struct RPairLookup<'a> {
 impl<'a> RPairLookup<'a> {
     pub fn new(lookup: &rg::PositionLookup<'a>) -> Result<Self, String> {
         let is_extension = lookup.lookup_type() == 9;
+        check_extension_types(lookup, 2)?;
         let subs_raw = match lookup.subtables().map_err(|e| format!("subtables(): {e}"))? {
             rg::PositionSubtables::Pair(s) => s,
             _ => return Err(format!("lookup type {} is not PairPos", lookup.lookup_type())),
@@ -496,6 +497,7 @@ pub struct RMarkLookup<'a> {
 impl<'a> RMarkLookup<'a> {
     pub fn new(lookup: &rg::PositionLookup<'a>) -> Result<Self, String> {
         let is_extension = lookup.lookup_type() == 9;
+        check_extension_types(lookup, 4)?;
         let subs_raw = match lookup.subtables().map_err(|e| format!("subtables(): {e}"))? {
             rg::PositionSubtables::MarkToBase(s) => s,
             _ => return Err(format!("lookup type {} is not MarkBasePos", lookup.lookup_type())),
@@ -555,4 +557,30 @@ impl<'a> RMarkLookup<'a> {
         }
         Ok(())
     }
+}
+
+/// In an extension lookup every subtable must be an extension of the SAME
+/// lookup type (`want`: 2 pair, 4 mark-to-base); read-fonts' `subtables()`
+/// only looks at the first one.
+pub fn check_extension_types(lookup: &rg::PositionLookup<'_>, want: u16) -> Result<usize, String> {
+    let rg::PositionLookup::Extension(l) = lookup else { return Ok(0) };
+    let mut n = 0;
+    for (i, st) in l.subtables().iter().enumerate() {
+        let st = st.map_err(|e| format!("extension subtable {i}: {e}"))?;
+        let ty = match st {
+            rg::ExtensionSubtable::Single(_) => 1,
+            rg::ExtensionSubtable::Pair(_) => 2,
+            rg::ExtensionSubtable::Cursive(_) => 3,
+            rg::ExtensionSubtable::MarkToBase(_) => 4,
+            rg::ExtensionSubtable::MarkToLig(_) => 5,
+            rg::ExtensionSubtable::MarkToMark(_) => 6,
+            rg::ExtensionSubtable::Contextual(_) => 7,
+            rg::ExtensionSubtable::ChainContextual(_) => 8,
+        };
+        if ty != want {
+            return Err(format!("extension subtable {i} has extension type {ty}, the lookup was of type {want}"));
+        }
+        n += 1;
+    }
+    Ok(n)
 }
